@@ -99,6 +99,12 @@ pub fn one_case(kind: &str, si: &gen::SchemaInfo, input: &J, out: &mut Out) {
     match kind {
         "trace" => trace_case(si, input.as_str().unwrap(), out),
         "svisit" => svisit_case(&si.name, &si.text, out),
+        "ext" => {
+            let mut rng = Rng::new(crate::env_seed());
+            crate::extcases::schema_cases(si, false, &mut rng, out);
+            crate::extcases::value_cases(false, &mut rng, out);
+            if let Some(t) = input.as_str() { crate::extcases::spreads_case(t, out); }
+        }
         _ => panic!("unknown kind {}", kind),
     }
 }
@@ -125,6 +131,18 @@ pub fn generate(kind: &str, thorough: bool, seed: u64, corpus: &str, out: &mut O
             svisit_case("with-extension", &format!("{}{}", schemas::PRELUDE, "type Query { a: Int } extend type Query { b: Int } enum E { X }"), out);
             svisit_case("tiny", "scalar Int", out);
             for i in 0..(60 * scale) { let t = gen::random_schema(&mut rng); svisit_case(&format!("random{}", i), &t, out); }
+        }
+        "ext" => {
+            let mut sis = pool();
+            sis.push(gen::SchemaInfo::new("ambig", &format!("{}{}", schemas::PRELUDE, schemas::AMBIG)));
+            sis.push(gen::SchemaInfo::new("noquery", &format!("{}{}", schemas::PRELUDE, "type Other { a: Int } type Mutation { m: Int }")));
+            for i in 0..(6 * scale) { sis.push(gen::SchemaInfo::new(&format!("random{}", i), &gen::random_schema(&mut rng))); }
+            for si in &sis {
+                out.schema(si);
+                crate::extcases::schema_cases(si, thorough, &mut rng, out);
+                for t in random_docs(si, &mut rng, 10, 4) { crate::extcases::spreads_case(&t, out); }
+            }
+            crate::extcases::value_cases(thorough, &mut rng, out);
         }
         _ => panic!("unknown kind {}", kind),
     }
